@@ -1414,20 +1414,16 @@ func (z *zzC0102Srv) query(req *zzC0102Req, ans []zzC0102RR, rng *rand.Rand, via
 			Proto: proxy.ProtoUDP, Req: m, RequestID: z.reqID,
 			Addr: netip.AddrPortFrom(netip.MustParseAddr(cli), uint16(1024+rng.Intn(60000))),
 		}
-		if req.Cid != "" {
-			// A DNS-over-TLS request: the ClientID is the label in front of
-			// the server name; the proxy calls HandleBefore, then the handler.
-			cid := zzC0102OtherCID
-			if req.Cid == "kid" {
-				cid = zzC0102KidCID
-			}
-			pctx.Proto = proxy.ProtoTLS
-			pctx.Conn = zzC0102TLSConn{sn: cid + "." + zzC0102SrvName}
-			herr = z.s.HandleBefore(z.s.dnsProxy, pctx)
-		}
-		if herr == nil {
-			herr = z.s.handleDNSRequest(z.s.dnsProxy, pctx)
-		}
+		// A panic while the request is handled is an observation (the real
+		// server would lose the request, or crash), not a harness failure.
+		func() {
+			defer func() {
+				if v := recover(); v != nil {
+					herr = fmt.Errorf("panic: %v", v)
+				}
+			}()
+			herr = z.handle(req, pctx)
+		}()
 		res = pctx.Res
 	}
 
@@ -1438,9 +1434,30 @@ func (z *zzC0102Srv) query(req *zzC0102Req, ans []zzC0102RR, rng *rand.Rand, via
 	o.Out = z.abs(qname, qt, res, herr, upRRs)
 	if res != nil {
 		o.Concrete += fmt.Sprintf(" -> rcode=%s answer=%q ns=%d", dns.RcodeToString[res.Rcode], zzC0102Strs(res.Answer), len(res.Ns))
+	} else if herr != nil {
+		o.Concrete += " -> " + herr.Error()
 	}
 
 	return o
+}
+
+// handle passes one request to the server the way the proxy does.
+func (z *zzC0102Srv) handle(req *zzC0102Req, pctx *proxy.DNSContext) (herr error) {
+	if req.Cid != "" {
+		// A DNS-over-TLS request: the ClientID is the label in front of the
+		// server name; the proxy calls HandleBefore, then the handler.
+		cid := zzC0102OtherCID
+		if req.Cid == "kid" {
+			cid = zzC0102KidCID
+		}
+		pctx.Proto = proxy.ProtoTLS
+		pctx.Conn = zzC0102TLSConn{sn: cid + "." + zzC0102SrvName}
+		if herr = z.s.HandleBefore(z.s.dnsProxy, pctx); herr != nil {
+			return herr
+		}
+	}
+
+	return z.s.handleDNSRequest(z.s.dnsProxy, pctx)
 }
 
 func zzC0102Strs(rrs []dns.RR) (s []string) {
